@@ -895,6 +895,7 @@ def sf_old(E, n):
     heap, env = E.heap, E.frame.env
     E.heap = dict(E.heap_old)
     E.frame.env = dict(E.env_old)
+    E.frame.env.update(getattr(E, "qbound", {}))      # quantifier-bound variables stay visible inside old()
     for k in ("result",):
         E.frame.env.pop(k, None)
     try:
@@ -911,6 +912,7 @@ def sf_oldlist(E, n):
     heap, env = E.heap, E.frame.env
     E.heap = dict(E.heap_old)
     E.frame.env = dict(E.env_old)
+    E.frame.env.update(getattr(E, "qbound", {}))
     try:
         lv = E.eval(n.args[0])
         if not isinstance(lv, ListV):
@@ -956,6 +958,9 @@ def _quant(E, n, forall):
         E.frame.env[nm] = unpack(ty, [c], None)
     guards = []
     benv = {nm: E.frame.env[nm] for nm in names}
+    qsaved = dict(getattr(E, "qbound", {}))
+    E.qbound = dict(qsaved)
+    E.qbound.update(benv)
     for i, nm in enumerate(names):
         v = E.frame.env[nm]
         if isinstance(v, (RefV, ListV, DictV)):
@@ -964,6 +969,7 @@ def _quant(E, n, forall):
         body = E.tobool(E.truth(E.eval(lam.body)))
     finally:
         E.frame.env = saved
+        E.qbound = qsaved
     if guards:
         body = z3.Implies(z3.And(*guards), body) if forall else z3.And(*(guards + [body]))
     pats = []
